@@ -224,6 +224,29 @@ def _abstraction_only(ob):
     return False
 
 
+# contracts whose two sides are compositions of UNINTERPRETED string library functions (their algebra is
+# proved in lemmas/PointerText.lean, not known to the solver): a refutation that neither replays nor is
+# confirmed by the witness search separates two spellings of the same composition at best - a proof
+# failure (undecided), never a violation by itself
+LIBRARY_ABSTRACTION_CONTRACTS = {"JSONPointer._encode==pointer_text", "JSONPointer._parse==parse_text", "JSONPointer.__truediv__==join_tokens"}
+_STRING_LIB = ("str_replace_all", "str_split", "str_join", "str_lstrip")
+
+
+def _library_abstraction_only(contract_name, ob):
+    if contract_name not in LIBRARY_ABSTRACTION_CONTRACTS or ob.goal is None:
+        return False
+    stack, seen = [ob.goal], set()
+    while stack:
+        e = stack.pop()
+        if e.get_id() in seen or not z3.is_app(e):
+            continue
+        seen.add(e.get_id())
+        if e.decl().name() in _STRING_LIB or e.decl().name().startswith("collect!"):
+            return True
+        stack.extend(e.arg(i) for i in range(e.num_args()))
+    return False
+
+
 def _erase_refs(t):
     """t with every heap reference `obj(<number>)` replaced by obj(0)."""
     refs = {}
@@ -293,7 +316,7 @@ def run_contract(name, carveouts=(), timeout_ms=10000):
                         inputs[k] = S.to_python(ob.model, term)
                     except Exception as e:  # noqa: BLE001
                         inputs[k] = f"<unconcretisable: {e}>"
-                entry = {"obligation": ob.name, "kind": ob.kind, "note": ob.note, "inputs": inputs, "replayed": None, "abstraction_only": _abstraction_only(ob)}
+                entry = {"obligation": ob.name, "kind": ob.kind, "note": ob.note, "inputs": inputs, "replayed": None, "abstraction_only": _abstraction_only(ob) or _library_abstraction_only(name, ob)}
                 entry["replay_fn"] = cdef.replay
                 if cdef.replay is not None:
                     try:
